@@ -136,6 +136,9 @@ impl<'a> Pick<'a> for EntM {
         // ... and a burst of short-lived ones: systems of one stage pop the free list (refilled by every `maintain`) at the
         // same time
         for _ in 0..24 { let e = d.create(); let _ = d.delete(e); }
+        // a batch iterator that is still alive while the same system creates through another path
+        { let mut it = d.create_iter(); let x = it.next().unwrap(); let y = d.create(); let z = it.next().unwrap(); drop(it);
+          let _ = d.delete(x); let _ = d.delete(y); let _ = d.delete(z); }
         { let ep = EPOCH.load(SeqCst); let mut h = HANDLES.lock().unwrap(); h.push((ep, a)); h.push((ep, b)); if h.len() > 64 { h.drain(..32); } }
         let n = d.join().count();
         let m = (&**d).par_join().count();
@@ -510,6 +513,10 @@ fn run_graph(g: &Graph, world: &mut World, threads: usize, reps: usize, spin: u6
             d.dispatch(world);
             DISPATCH_SINCE.store(0, SeqCst);
             world.maintain();
+            // between frames the application creates entities directly (`World::create_entity` takes recycled indices off
+            // the free list that the `maintain` above refilled); the systems of the next dispatch then create through
+            // `Entities` with no `maintain` in between
+            { let e1 = world.create_entity().build(); let e2 = world.create_entity().build(); let _ = world.entities().delete(e2); let _ = e1; }
             for (i, s) in g.specs.iter().enumerate() {
                 for dn in &s.deps {
                     if let Some(j) = g.specs.iter().position(|x| &x.name == dn) {
